@@ -9,6 +9,7 @@ from trie import HexaryTrie
 from trie.exceptions import BadTrieProof
 
 from ..core import HarnessError, Violation, deep, fresh, hx, unhx
+from ..simdb import STORE_FLAVOURS
 from ..hgen import HistoryGen, make_pool, make_values, probe_keys, rare_huge
 from ..hworld import HWorld
 from ..models.mpt import BLANK_ROOT, RefMPT, nibbles_of, rlp_any
@@ -416,7 +417,7 @@ def generate(rng):
             c["drop_each"] = 1
         c["deliveries"] = [[gen_fault(rng, pool, probes) for _ in range(rng.choice([1, 1, 2, 3, 4]))] for _ in range(rng.choice([1, 2, 4]) if not deep_pool else 1)]
         cmds.insert(pos, c)
-    return {"prop": ID, "cfg": {"prune": False, "cache": 4096, "foreign": foreign, "store": rng.choice(["min", "min", "dict"])}, "cmds": cmds}
+    return {"prop": ID, "cfg": {"prune": False, "cache": 4096, "foreign": foreign, "store": rng.choice(STORE_FLAVOURS)}, "cmds": cmds}
 
 
 def explore(rng, st):
